@@ -346,8 +346,9 @@ def step_correspondence(prop, tier, seed):
                 if g["impl"] != exp:
                     mism.append(c)
             stats["phase2"] = len(p2)
-    # smallest first
-    mism.sort(key=lambda c: len(c["input"]))
+    # concrete property-oracle failures first (a model/implementation disagreement whose oracle verdict is
+    # still "ok" must not hide them), then smallest first
+    mism.sort(key=lambda c: (c["oracle"] == "ok", len(c["input"])))
     seen_sigs = set()
     for c in mism:
         if c["sig"] in seen_sigs and len(seen_sigs) > 0:
